@@ -17,9 +17,15 @@ fn k3_time_until_is_saturating_difference() {
     kani::cover!(gt(d, now), "reachable: deadline in the future");
     kani::cover!(gt(now, d), "reachable: deadline already passed");
     if ge(d, now) {
-        assert!(dur_parts(r) == diff(d, now), "C05: time_until == deadline - now");
+        assert!(
+            dur_parts(r) == diff(d, now),
+            "C05: time_until == deadline - now"
+        );
     } else {
-        assert!(r == Duration::ZERO, "C05/C07: a passed deadline gives zero, not an error");
+        assert!(
+            r == Duration::ZERO,
+            "C05/C07: a passed deadline gives zero, not an error"
+        );
     }
 }
 
@@ -27,14 +33,22 @@ fn k3_time_until_is_saturating_difference() {
 /// (prelude/time.rs) assumes, and lies within tokio-util's DelayQueue range (2^36 - 1 ms).
 #[kani::proof]
 fn k3_max_timer_delay_value() {
-    assert!(MAX_TIMER_DELAY.as_secs() == 31_536_000 && MAX_TIMER_DELAY.subsec_nanos() == 0, "model constant == real constant (31_536_000_000 ms)");
-    assert!(MAX_TIMER_DELAY.as_secs() < ((1u64 << 36) - 1) / 1000, "C16: within DelayQueue range (2^36 - 1 ms)");
+    assert!(
+        MAX_TIMER_DELAY.as_secs() == 31_536_000 && MAX_TIMER_DELAY.subsec_nanos() == 0,
+        "model constant == real constant (31_536_000_000 ms)"
+    );
+    assert!(
+        MAX_TIMER_DELAY.as_secs() < ((1u64 << 36) - 1) / 1000,
+        "C16: within DelayQueue range (2^36 - 1 ms)"
+    );
     // and Duration::min really is the minimum (what `.min(MAX_TIMER_DELAY)` relies on)
     let d = any_duration();
     let m = d.min(MAX_TIMER_DELAY);
-    assert!(m <= MAX_TIMER_DELAY && m <= d && (m == d || m == MAX_TIMER_DELAY), "C16: clamped delay never exceeds the range");
+    assert!(
+        m <= MAX_TIMER_DELAY && m <= d && (m == d || m == MAX_TIMER_DELAY),
+        "C16: clamped delay never exceeds the range"
+    );
 }
-
 
 /// C16: rendering the `rpc.deadline` span field can never fail: for every deadline and every
 /// wall-clock time (>= the epoch) the helper neither overflows nor hands humantime a timestamp
@@ -56,6 +70,8 @@ fn k3_deadline_field_always_renderable() {
     let since_epoch = t.duration_since(std::time::SystemTime::UNIX_EPOCH);
     kani::cover!(gt(d, now), "reachable: future deadline");
     assert!(since_epoch.is_ok(), "C16: not before the epoch");
-    assert!(since_epoch.unwrap().as_secs() < 253_402_300_800, "C16: within what humantime can render (year <= 9999)");
+    assert!(
+        since_epoch.unwrap().as_secs() < 253_402_300_800,
+        "C16: within what humantime can render (year <= 9999)"
+    );
 }
-
